@@ -269,7 +269,14 @@ func (c *c14) malformed(base *valWorld) {
 		{"validator address with account prefix", func() error {
 			return k.RegisterExecutorChangePlan(5, 503, NewValKey(9).Operator.String(), "m", goodKey, "i", goodExec)
 		}},
-		{"executor address undecodable", func() error { return k.RegisterExecutorChangePlan(6, 504, goodOp, "m", goodKey, "i", []string{goodExec[0], "xyz"}) }},
+		{"executor address undecodable (last)", func() error { return k.RegisterExecutorChangePlan(6, 504, goodOp, "m", goodKey, "i", []string{goodExec[0], "xyz"}) }},
+		{"executor address undecodable (first)", func() error { return k.RegisterExecutorChangePlan(6, 508, goodOp, "m", goodKey, "i", []string{"xyz", goodExec[0]}) }},
+		{"executor address undecodable (middle)", func() error {
+			return k.RegisterExecutorChangePlan(6, 509, goodOp, "m", goodKey, "i", []string{goodExec[0], "", base.e.Executors[1].String()})
+		}},
+		{"executor address with validator prefix", func() error {
+			return k.RegisterExecutorChangePlan(6, 510, goodOp, "m", goodKey, "i", []string{NewValKey(9).Operator.Val(), goodExec[0]})
+		}},
 		{"key not JSON", func() error { return k.RegisterExecutorChangePlan(7, 505, goodOp, "m", "not json", "i", goodExec) }},
 		{"key JSON of unknown type", func() error {
 			return k.RegisterExecutorChangePlan(8, 506, goodOp, "m", `{"@type":"/cosmos.crypto.unknown.PubKey","key":"AAAA"}`, "i", goodExec)
